@@ -1,10 +1,16 @@
 import StepupModel.Proto
-/-! Driver requests of C02 (`c02 <op> ...`). -/
-open StepupModel StepupModel.Proto
+import StepupModel.K.Workflow
+/-! Driver requests of C02 (`c02 <op> ...`): the normalisation of path lists.
+
+* `c02 norm <paths>` → `normPaths` of the list (`sorted(set(paths))`). -/
+open StepupModel StepupModel.Proto StepupModel.K
 
 namespace StepupModel.Drv.C02
 
 def handle : List String → Option String
+  | ["norm", paths] => do
+    let ps ← unhexList paths
+    pure (hexList (normPaths ps))
   | _ => none
 
 end StepupModel.Drv.C02
